@@ -22,7 +22,10 @@ ALL24 = SYNC + ASYNC
 NO_DECO = [e for e in ALL24 if "deco" not in e] + ["RetryPolicySet.call", "AsyncRetryPolicySet.execute",
                                                     "RetrySet.execute", "AsyncRetrySet.call"]
 POLICY6 = ["Policy.call", "Policy.execute", "Policy.context", "AsyncPolicy.call",
-           "AsyncPolicy.execute", "AsyncPolicy.context"]
+           "AsyncPolicy.execute", "AsyncPolicy.context",
+           # the wrappers, with the breaker attached through their .policy container
+           "RetryPolicy.call", "RetryPolicy.execute", "AsyncRetryPolicy.call",
+           "AsyncRetryPolicy.execute"]
 ALPHA = ["ok", "x:T", "x:U", "x:P", "r:T", "abort"]
 
 META = {
